@@ -17,6 +17,21 @@ CLAIMS = {
              "sign+Unicode decimal digits, recursive spec functions as uninterpreted + unfolding instances, regex match "
              "modelled as any decomposition + tail maximality (CPython's choice is one of them). Trusted: " + TB,
         technique="contract-based deductive verification: self-generated weakest-precondition style VCs over the Python AST, discharged by z3/cvc5; counter-models replayed on the real code"),
+    "C04": dict(
+        category="proof", design="DESIGN.md section 7 C04",
+        text="Contract-based deductive proof on the real Cell._from_storage and Cell._to_buffer (cell.py, read from /repo every "
+             "run): decoder proved for ALL 2^21 flag words x all type bytes (flags bit-structured, if-joins merged, loop-free => "
+             "complete): every interpreted id equals the 4-byte word at field_offset(bit, flags) of the published layout or None, "
+             "payload words at their slots, every read in bounds, UnsupportedError iff bad version/type; encoder proved for 8 "
+             "storable kinds x all 2^12 subsets of optional ids: flag bit iff attribute present, each id stored at "
+             "field_offset(bit, flags), length == record_len(flags), type byte per kind; round trip and slot-disjointness as "
+             "lemmas over the two contracts. Counter-models are replayed against the real functions with an independent "
+             "layout encoder/decoder.",
+        note="Assumes: typed-word memory (enforced: only byte or whole pack/unpack accesses are accepted), payload codecs "
+             "(decimal128, datetime arithmetic, float compare) uninterpreted here (C01's kernels), assumed callee contracts "
+             "for model.table_string/table_rich_text/merge_cells/table_string_key and Cell._set_merge (frame only), logging level "
+             "arbitrary. Two genuine defects found and repaired by fix: commits ba61402, d484052 (known_findings.json). Trusted: " + TB,
+        technique="contract-based deductive verification: self-generated VCs over the Python AST with if-join merging, discharged by z3/cvc5; counter-models replayed on the real code"),
 }
 NA_REASON = "check not built yet (build in progress; see DESIGN.md section 7 for the plan)"
 
